@@ -535,20 +535,26 @@ fn write_regular_header(
 ) -> Result<(), RejectReason> {
     let len_key = key.len() as u32;
     let len_val = value.len() as u32;
+    // Key first, value second: the serializers emit `key`, then `val`, and
+    // `Kawa::consume` assumes that the stores queued in `out` reference the
+    // buffer in increasing order. With the value stored in front of its key, two
+    // partial writes toward an HTTP/1.1 peer that stop inside a key and then
+    // inside its value made kawa's bookkeeping wrap around: the head was sent
+    // from the wrong offsets or the worker panicked in `Store::data`.
     let start = kawa.storage.end as u32;
-    let end_before_val = kawa.storage.end;
-    if kawa.storage.write_all(value).is_err() {
+    let end_before_key = kawa.storage.end;
+    if kawa.storage.write_all(key).is_err() {
         return Err(RejectReason::OversizedPseudoValue);
     }
-    // All-or-nothing write_all: storage.end advanced by exactly the value length.
+    // All-or-nothing write_all: storage.end advanced by exactly the key length.
     debug_assert_eq!(
         kawa.storage.end,
-        end_before_val + value.len(),
-        "regular header value write must advance storage.end by value.len()"
+        end_before_key + key.len(),
+        "regular header key write must advance storage.end by key.len()"
     );
-    let val = Store::Slice(Slice {
+    let key_store = Store::Slice(Slice {
         start,
-        len: len_val,
+        len: len_key,
     });
     if compare_no_case(key, b"content-length") {
         // RFC 9110 §8.6: Content-Length is 1*DIGIT. `usize::from_str` would
@@ -566,31 +572,32 @@ fn write_regular_header(
             return Err(RejectReason::DuplicateCl);
         }
     }
-    let end_before_key = kawa.storage.end;
-    if kawa.storage.write_all(key).is_err() {
+    let end_before_val = kawa.storage.end;
+    if kawa.storage.write_all(value).is_err() {
         return Err(RejectReason::OversizedPseudoValue);
     }
-    // The key was appended immediately after the value, so it starts at
-    // `start + len_val` and the two slices tile [start, end) contiguously
+    // The value was appended immediately after the key, so it starts at
+    // `start + len_key` and the two slices tile [start, end) contiguously
     // with no gap and no overlap.
     debug_assert_eq!(
         kawa.storage.end,
-        end_before_key + key.len(),
-        "regular header key write must advance storage.end by key.len()"
+        end_before_val + value.len(),
+        "regular header value write must advance storage.end by value.len()"
     );
     debug_assert_eq!(
-        end_before_key as u32,
-        start + len_val,
-        "key must begin exactly where the value ended (contiguous, no gap)"
+        end_before_val as u32,
+        start + len_key,
+        "value must begin exactly where the key ended (contiguous, no gap)"
     );
-    let key = Store::Slice(Slice {
-        start: start + len_val,
-        len: len_key,
+    let val = Store::Slice(Slice {
+        start: start + len_key,
+        len: len_val,
     });
     debug_assert!(
-        (start + len_val + len_key) as usize <= kawa.storage.end,
+        (start + len_key + len_val) as usize <= kawa.storage.end,
         "key+val slices must stay within the written storage region"
     );
+    let key = key_store;
     kawa.push_block(Block::Header(Pair { key, val }));
     Ok(())
 }
@@ -1067,6 +1074,26 @@ where
                     && !scheme.is_empty(),
                 "all four request pseudo-headers must be present after validation"
             );
+            // The H1 serializer writes `method SP path SP version CRLF "Host: "
+            // authority`, and `Kawa::consume` assumes that the stores queued in
+            // `out` reference the buffer in increasing order. `:authority`
+            // usually arrives before `:path`, so its slice lies *before* the
+            // path's: after a partial write toward an H1 backend that stops
+            // between the two, kawa releases the buffer up to the path, and a
+            // second partial write makes its bookkeeping wrap around - a
+            // request head sent from the wrong offsets, or a worker panic in
+            // `Store::data`. Detach the (short) value from the buffer.
+            let authority = match authority {
+                Store::Slice(_) => Store::from_slice(authority.data(kawa.storage.buffer())),
+                other => other,
+            };
+            // Same reasoning for the (rare) `:path` that arrives before `:method`.
+            let method = match (&method, &path) {
+                (Store::Slice(m), Store::Slice(p)) if m.start > p.start => {
+                    Store::from_slice(method.data(kawa.storage.buffer()))
+                }
+                _ => method,
+            };
             StatusLine::Request {
                 version: Version::V20,
                 method,
